@@ -7,12 +7,14 @@
 (* driver that runs the real tool on it.                                    *)
 (***************************************************************************)
 EXTENDS Expect, Json, IOUtils
-CONSTANTS MaxOuts, MaxLines, TwoSteps, Timeouts, Export
+CONSTANTS MaxOuts, MaxLines, TwoSteps, Timeouts, Candidates, Export
 
 LA == Obj([k \in {"a"} |-> Num(2)])
 LB == Obj([k \in {"b"} |-> Num(2)])
 LC == Obj([k \in {"a", "b"} |-> Num(2)])
 LD == Obj([k \in {"c"} |-> Num(2)])
+\* a message no pattern of the vocabulary matches (the property variable below has no candidate in it)
+LX == Obj([k \in {"x"} |-> Num(6)])
 Lines == {LA, LB, LC, LD, Noise}
 
 PA == Obj([k \in {"a"} |-> Num(2)])
@@ -23,6 +25,11 @@ PAB == Obj([k \in {"a", "b"} |-> Num(2)])
 Accept == <<"ops", <<>> >>
 Reject == <<"ops", << <<"retnull">> >> >>
 Outs == [pat : {PA, PB, PC, PAB}, guard : {NoOps, Accept, Reject}, inv : BOOLEAN]
+\* a property variable: {"?k": 2} matches LA and LB in one way, LC in two (k = a, k = b), LX and LD' in none; a guard that
+\* rejects the candidate k = a and accepts any other
+PK == <<"pobj", <<"var", "plain", "?k", "?k", "">>, Num(2)>>
+NotA == <<"ops", << <<"nullif", "?k", Str("a")>> >> >>
+OutsK == [pat : {PK}, guard : {NoOps, NotA}, inv : BOOLEAN]
 
 SeqsUpTo(n, S) == UNION {[1..k -> S] : k \in 0..n}
 Step1 == [lines : SeqsUpTo(MaxLines, Lines), outs : SeqsUpTo(MaxOuts, Outs)]
@@ -41,8 +48,13 @@ Sessions == {<<s>> : s \in Step1} \cup
                                        f \in SeqsUpTo(1, {LA, LB}), sl \in SeqsUpTo(1, SlowL), os \in SeqsUpTo(2, O2)}}
              ELSE {})
 
+\* sessions about candidates: outputs with the property-variable pattern (alone or next to a plain one)
+CandSessions == IF Candidates
+                THEN {<<x>> : x \in [lines : SeqsUpTo(2, {LA, LC, LX}), outs : SeqsUpTo(2, OutsK \cup [pat : {PA}, guard : {NoOps}, inv : BOOLEAN])]}
+                ELSE {}
+
 VARIABLE s
-Init == s \in Sessions
+Init == s \in Sessions \cup CandSessions
 Next == UNCHANGED s
 Spec == Init /\ [][Next]_s
 
